@@ -72,18 +72,46 @@ impl Runner {
     pub fn run(&mut self) -> Result<Scs, Error> {
         let mut scs = self.reader.create_zero_scs();
 
+        #[cfg(sfs_verif)]
+        verif::event(format_args!(
+            r#"{{"event":"build","strict":{},"cells":{}}}"#,
+            self.strict,
+            scs.elements()
+        ));
+
         loop {
+            #[cfg(sfs_verif)]
+            let kind;
+
             match self.reader.read_site() {
                 ReadStatus::Read(Site::Standard(counts)) => {
                     scs[&counts] += 1.0;
+                    #[cfg(sfs_verif)]
+                    {
+                        kind = "standard";
+                    }
                 }
                 ReadStatus::Read(Site::Projected(projected)) => {
                     projected.add_unchecked(&mut scs);
+                    #[cfg(sfs_verif)]
+                    {
+                        kind = "projected";
+                    }
                 }
                 ReadStatus::Read(Site::InsufficientData) => {
+                    #[cfg(sfs_verif)]
+                    if self.strict {
+                        verif::event(format_args!(r#"{{"event":"fail","why":"strict"}}"#));
+                    }
                     self.handle_skipped_site()?;
+                    #[cfg(sfs_verif)]
+                    {
+                        kind = "insufficient";
+                    }
                 }
                 ReadStatus::Error(e) => {
+                    #[cfg(sfs_verif)]
+                    verif::event(format_args!(r#"{{"event":"fail","why":"error"}}"#));
                     return Err(anyhow!(
                         "encountered genotype error at site '{}:{}': {e}",
                         self.reader.current_contig(),
@@ -96,9 +124,25 @@ impl Runner {
             self.handle_skipped_samples();
 
             self.sites += 1;
+
+            // one event per record, after the counters and the spectrum were updated
+            #[cfg(sfs_verif)]
+            verif::event(format_args!(
+                r#"{{"event":"site","kind":"{}","sites":{},"skipped":{},"mass":{:.9}}}"#,
+                kind,
+                self.sites,
+                self.skipped,
+                scs.sum()
+            ));
         }
 
         self.summarize_skipped();
+
+        #[cfg(sfs_verif)]
+        verif::event(format_args!(
+            r#"{{"event":"finish","sites":{},"skipped":{}}}"#,
+            self.sites, self.skipped
+        ));
 
         Ok(scs)
     }
@@ -111,6 +155,21 @@ impl Runner {
                 skipped = self.skipped,
                 total = self.sites,
             );
+        }
+    }
+}
+
+/// Verification hook (compiled only with `--cfg sfs_verif`): appends one JSON line per event to the
+/// file named by the environment variable `SFS_VERIF_TRACE`; does nothing when it is unset.
+#[cfg(sfs_verif)]
+pub(crate) mod verif {
+    use std::{fmt, fs::OpenOptions, io::Write};
+
+    pub fn event(line: fmt::Arguments<'_>) {
+        if let Ok(path) = std::env::var("SFS_VERIF_TRACE") {
+            if let Ok(mut f) = OpenOptions::new().create(true).append(true).open(path) {
+                let _ = writeln!(f, "{line}");
+            }
         }
     }
 }
